@@ -31,7 +31,8 @@ class C18(PoolCheck):
     GROUP = 1
     CASE_TIMEOUT = 180.0
     FAMILIES = ('xsitype', 'keys', 'ids', 'fixed', 'subst', 'wild', 'assert11', 'mixed', 'shadow', 'dtd')
-    RULE = ("case = (family, scenario [built | racing_build | shared_lazy_resource], 2-4 thread programs of 1-3 "
+    RULE = ("[coverage.distinct_tags = distinct (pre-empted function > resumed function) switch pairs over the batch] "
+            "case = (family, scenario [built | racing_build | shared_lazy_resource | defused programs], 2-4 thread programs of 1-3 "
             "operations each, schedule policy [uniform switching p in {0.001,0.01,0.05,0.2} | PCT d in {1,2,3} | "
             "targeted switching on entry to a random subset of shared-state functions | run-to-completion "
             "permutation], sequential epilogue). The scheduler switches threads only at function-call events inside "
@@ -232,7 +233,8 @@ class C18(PoolCheck):
                           'switches': sched.switches, 'schedule_head': sched.segments[:8]}}
         if violations and 'schedule' not in case:
             out['pin'] = dict(case, schedule=sched.segments)
-        out['distinct_edges'] = sorted(sched.edge_pairs)[:0]
+        # (pre-empted function > resumed function) adjacency pairs seen in this run; the batch reports their union
+        out['tags'] = sorted(sched.edge_pairs)[:400]
         return out
 
     def shrink(self, case):
